@@ -66,17 +66,23 @@ func init() {
 		NeedsCG:     true,
 		Rules: []core.Rule{
 			{ID: "C04-R1", Title: "HKDF labels and AEAD nonces per role", Decides: "every derived key and sealed message verifies under the specification's constants", Floor: 12, Run: c04r1},
-			{ID: "C04-R2", Title: "SRP parameters", Decides: "a conformant controller's proof verifies", Floor: 6, Run: func(c *core.Ctx) { c04r2(c); setupSessionFromPin(c) }},
+			{ID: "C04-R2", Title: "SRP parameters", Decides: "a conformant controller's proof verifies", Floor: 6, Run: func(c *core.Ctx) { c04r2(c); setupSessionFromPin(c); pinFormatted(c) }},
 			{ID: "C04-R3", Title: "primitive wrappers route their arguments", Decides: "signatures and keys verify under the specification's algorithms", Floor: 9, Run: func(c *core.Ctx) {
 				c04r3(c)
 				passThrough(c, "C04")
 				copySourcesAreWritten(c, "crypto", "crypto/hkdf", "crypto/chacha20poly1305", "crypto/curve25519", "hap/pair", "hap")
 				keyPairRouting(c)
+				returnsUndecorated(c, "C04")
 			}},
 			{ID: "C04-R4", Title: "message shape: one State item, spec values, signed material order, sub-TLV tags, stable session objects", Decides: "responses parse at a conformant controller", Floor: 10, Run: func(c *core.Ctx) { c04r4(c); encryptedItemIsCiphertextThenTag(c) }},
 			{ID: "C04-R5", Title: "constant tables", Decides: "TLV tags, states and methods are the specification's", Floor: 25, Run: c04r5},
 			{ID: "C04-R6", Title: "frame layout of the encrypted session (shared with C06-R1/R4)", Decides: "encrypted requests of any size are read", Floor: 4, Run: func(c *core.Ctx) { c04r6(c); frameAtATime(c); c07r2(c) }},
-			{ID: "C04-R7", Title: "failed attempts leave the controller ready; frame counters continuous; no cross-connection state in the endpoints; stateless wrappers", Decides: "a conformant controller can retry, and can keep talking after a multi-frame request", Floor: 8, Run: func(c *core.Ctx) { c04r7(c); entityCtorPasses(c); sessionStoredUnderConnectionKey(c) }},
+			{ID: "C04-R7", Title: "failed attempts leave the controller ready; frame counters continuous; no cross-connection state in the endpoints; stateless wrappers", Decides: "a conformant controller can retry, and can keep talking after a multi-frame request", Floor: 8, Run: func(c *core.Ctx) {
+				c04r7(c)
+				entityCtorPasses(c)
+				sessionStoredUnderConnectionKey(c)
+				endpointPlumbingPolarity(c)
+			}},
 			{ID: "C04-R8", Title: "pairing messages are parsed and written in the TLV8 item layout, every piece read completely (shared with C16-R1)", Decides: "a conformant controller's messages parse however the network segments the body; the answers are TLV8", Floor: 2, Run: c16r1},
 		},
 	})
